@@ -1,0 +1,26 @@
+//go:build verif
+// +build verif
+
+package core
+
+import "time"
+
+// Read-only accessors used by the verification harness (/verif).
+// Compiled only with -tags verif.
+
+// VerifState returns a copy of the breaker's window and its 'updated'
+// instant.
+func (b *OutboundBreaker) VerifState() ([]int64, time.Time) {
+	b.Lock()
+	defer b.Unlock()
+	counts := make([]int64, len(b.counts))
+	copy(counts, b.counts)
+	return counts, b.updated
+}
+
+// VerifPending returns the throttle's pending counter.
+func (t *Throttle) VerifPending() int {
+	t.Lock()
+	defer t.Unlock()
+	return t.pending
+}
